@@ -169,6 +169,21 @@ let run_op (c : cache) (op : string) (args : string list) (qs : string list arra
       (match rpc_ctx c (parse_verid (a 0)) with
        | (Some (r, (pid, sid)), c1) -> (Printf.sprintf "ok %d:%d %d" (ni pid) (ni sid) (int_of_nat r.r_work), c1, 0)
        | (None, c1) -> ("none", c1, 0))
+  | "u_newregion" ->
+      let kinds = List.map (fun x -> match split_on ':' x with
+                    | [sid; k; t] -> (int_of_string sid, (int_of_string k, t = "1")) | _ -> raise (Parse x)) (split_on '/' (a 3)) in
+      let ps = List.map (fun x -> match split_on ':' x with
+                 | [pid; sid; w; l] ->
+                     let (k, tomb) = List.assoc (int_of_string sid) kinds in
+                     { p_peer = (nn (int_of_string pid), nn (int_of_string sid)); p_witness = (w = "1"); p_learner = (l = "1");
+                       p_kind = nn k; p_tomb = tomb }
+                 | _ -> raise (Parse x)) (split_on '/' (a 0)) in
+      let down = if a 2 = "_" then [] else List.map parse_peer (split_on '/' (a 2)) in
+      let ix l = if l = [] then "_" else String.concat "/" (List.map (fun i -> string_of_int (int_of_nat i)) l) in
+      ((match new_region_peers (parse_peer (a 1)) down ps with
+        | None -> "err"
+        | Some (((avail, tikv), tiflash), w) ->
+            Printf.sprintf "ok avail=%s tikv=%s tiflash=%s work=%d" (show_peers (List.map (fun p -> p.p_peer) avail)) (ix tikv) (ix tiflash) (int_of_nat w)), c, 0)
   | "u_merge" ->
       let cs = List.map new_region (parse_descs (a 0)) and us = List.map new_region (parse_descs (a 1)) in
       ("ok " ^ show_locs (merge_all cs us), c, 0)
